@@ -65,7 +65,7 @@ Print Assumptions C07_source_keys_complete.
    re-reading the connections, in any order and with any repetition) observes, operation by operation,
    what a fresh space with the same connection table answers: spec_run consults no cache. *)
 Theorem C07_cache_transparent : forall c,
-  run_case c = spec_run (c_space c) None (c_ops c).
+  run_case c = spec_run (c_space c) None [] (c_ops c).
 Proof.
   intros c. apply run_ops_init; [exact (proj1 C07_source_keys_complete)|exact (proj2 C07_source_keys_complete)].
 Qed.
@@ -74,7 +74,7 @@ Print Assumptions C07_cache_transparent.
 (* the same for any cache configuration whose keys are complete (or no caching at all) *)
 Theorem C07_cache_transparent_any : forall pI pG cprop sp ops,
   cfg_ok pI = true -> cfg_ok pG = true ->
-  run_ops pI pG cprop sp init_state ops = spec_run sp None ops.
+  run_ops pI pG cprop sp init_state ops = spec_run sp None [] ops.
 Proof. intros. apply run_ops_init; assumption. Qed.
 Print Assumptions C07_cache_transparent_any.
 
@@ -417,4 +417,75 @@ Example C07_example_source :
   gen_connect_nd false [2; 2; 2] [0; 1; 1] (vn_offsets_src 3) = [([1; 0; 0], [1; 1; 1]); ([0; -1; 0], [0; 0; 1]); ([0; 0; -1], [0; 1; 0])] /\
   src_nbhd (fun _ => [0]) 2 2 false 0 = Some [] /\ src_nbhd (fun _ => []) 3 3 true 0 = Some [0] /\
   src_nbhd (fun _ => [0]) 5 0 true 0 = None.
+Proof. vm_compute. repeat split; reflexivity. Qed.
+
+(* ---------------------------------------------------------------- round 3: hex selector, Network, Voronoi end to end, CellCollection *)
+(* the TRANSLATED selector test of HexGrid._connect_cells_2d (gen_hex_select, whatever way the source writes the
+   parity test) depends on the parity of the coordinate only; C07_hex_touching / C07_conn_spec_hex above are re-checked
+   against it and the regenerated tables on every run *)
+Theorem C07_hex_selector_is_parity : forall p, gen_hex_select p = gen_hex_select (p mod 2).
+Proof. exact hex_select_parity. Qed.
+Print Assumptions C07_hex_selector_is_parity.
+
+(* Network: the connections the translated _connect_single_cell makes from G.neighbors(u): key = target = every graph
+   neighbour (undirected simple graphs: the statement) *)
+Theorem C07_network_connections_of_source : forall edges u k v,
+  In (k, v) (gen_net_connect (net_adj edges u)) <-> k = v /\ (In (u, v) edges \/ In (v, u) edges).
+Proof. exact net_conn_of_source. Qed.
+Print Assumptions C07_network_connections_of_source.
+
+(* boundary of the statement - directed graphs (networkx.DiGraph: neighbours = successors): connections are the
+   out-edges; they are symmetric exactly when the edge set is, and the neighbourhood theorems (C07_nbhd_is_ball is
+   generic in conn) then describe balls of DIRECTED hops; witness of asymmetry: the single edge 0 -> 1 *)
+Theorem C07_network_directed : forall edges,
+  (forall u k v, In (k, v) (gen_net_connect (dnet_adj edges u)) <-> k = v /\ In (u, v) edges) /\
+  ((forall u v, In v (dnet_adj edges u) -> In u (dnet_adj edges v)) <-> (forall u v, In (u, v) edges -> In (v, u) edges)).
+Proof. intros edges. split; [intros; apply dnet_conn_of_source|apply dnet_symmetric_iff]. Qed.
+Print Assumptions C07_network_directed.
+
+Theorem C07_network_directed_asymmetric :
+  exists edges u v, In v (dnet_adj edges u) /\ ~ In u (dnet_adj edges v) /\
+    In v (nbhd (dnet_adj edges) 0 false u) /\ ~ In u (nbhd (dnet_adj edges) 5 false v).
+Proof. exact dnet_asymmetric_witness. Qed.
+Print Assumptions C07_network_directed_asymmetric.
+
+(* VoronoiGrid._connect_cells END TO END, about the translated source: `full` = every triangle of the implementation's
+   triangulation (exported by the driver, op Cert).  If the certificate holds (delaunay_cert of the triangles the
+   TRANSLATED export_triangles keeps, every connect call of the TRANSLATED loops is in range, keyed (cell, target) and a
+   Delaunay pair, two centroids are joined), then the connect calls are exactly the Delaunay adjacency. *)
+Theorem C07_voronoi_connections_of_source : forall pts full, vor_conn_cert pts full = true ->
+  let conns := gen_vor_connect (gen_vor_export full) full in
+  (forall i j, In i (idxs pts) -> In j (idxs pts) ->
+     (vor_emitted conns i j = true <-> delaunay_adj pts i j = true)) /\
+  (forall x k1 k2 y, In (x, ((k1, k2), y)) conns -> In x (idxs pts) /\ In y (idxs pts) /\ k1 = x /\ k2 = y).
+Proof. exact voronoi_connections_of_source. Qed.
+Print Assumptions C07_voronoi_connections_of_source.
+
+(* bridge to the model's edge function: the first translated loop connects every edge of an exported triangle *)
+Theorem C07_voronoi_loop_is_tri_adj : forall exported full i j,
+  tri_adj exported i j = true -> vor_emitted (gen_vor_connect exported full) i j = true.
+Proof. exact vor_loop1_bridge. Qed.
+Print Assumptions C07_voronoi_loop_is_tri_adj.
+
+(* CellCollection level: the agents of a neighbourhood collection are exactly the agents that are NOW in one of its
+   cells (C07_cache_transparent covers the ops Place / NbhdAgents: the cached collection shows the current agents);
+   an agent is in one cell only, the one it entered last *)
+Theorem C07_collection_agents : forall ag cells a,
+  In a (agents_in ag cells) <-> exists c, In c cells /\ In (a, c) ag.
+Proof. exact agents_in_spec. Qed.
+Print Assumptions C07_collection_agents.
+
+Theorem C07_agent_in_one_cell : forall ag a c,
+  (forall a' c', In (a', c') (place ag a c) <-> (a' = a /\ c' = c) \/ (a' <> a /\ In (a', c') ag)) /\
+  (single_valued ag -> single_valued (place ag a c)).
+Proof. intros. split; [intros; apply place_In|apply place_single_valued]. Qed.
+Print Assumptions C07_agent_in_one_cell.
+
+Example C07_example_round3 :
+  run_case {| c_space := SDNet 3 [(0, 1); (1, 2)];
+              c_ops := [Build [[1]; [2]; []]; NbhdAgents 0 0 2 false; Place 7 2; Place 8 1; NbhdAgents 0 0 2 false;
+                        Place 7 0; NbhdAgents 1 0 2 true; Nbhd 0 2 3 true] |}
+  = [[-5; 1000001; -5; 2000002; -5]; [2; 0]; [0; 7]; [0; 8]; [2; 0; 7; 8]; [0; 7]; [3; 0; 7; 8]; [0; 2]] /\
+  vor_conn_cert [(3, 15); (18, 20)] [(0, 1, 4); (1, 5, 4); (1, 2, 5); (2, 3, 5); (3, 4, 5); (3, 0, 4)] = true /\
+  hex_offsets [0; 3] = gen_hex_even_offsets /\ hex_offsets [7; 4] = gen_hex_odd_offsets.
 Proof. vm_compute. repeat split; reflexivity. Qed.
